@@ -25,7 +25,7 @@ import sys
 
 from common import KERNEL_TB, REPO, Driver, Report, build_driver, check_props, coq_make, known_findings, regen_all, scan_forbidden
 from c01 import BV_DRIVER
-from sicheck import Dom, keystr, rand_key
+from sicheck import Dom, keystr, rand_key, SI_DRIVER
 
 PROP = "C24"
 INT_OPS = {"Extract": 2, "ZeroExt": 1, "SignExt": 1}
@@ -235,6 +235,14 @@ class Case:
             return c.Concat(self.bv(depth - 1, n), self.bv(depth - 1, w - n))
         return self.const(w)
 
+    def direct(self):
+        """each operator whose transfer function is modelled, applied straight to the annotated variables (whose intervals need
+        not be aligned or non-wrapping): these are the table entries the proved model is compared with"""
+        c, rng = E.c, self.rng
+        v, u = rng.choice(self.vars), rng.choice(self.vars)
+        cmp_op = rng.choice(["ULT", "ULE", "UGT", "UGE", "SLT", "SLE", "SGT", "SGE"])
+        return [~v, -v, c.ZeroExt(rng.randint(1, 2), v), v - u, v + u, E.astio.apply_op(cmp_op, [], [v, u])]
+
     def boolean(self, depth):
         rng, c = self.rng, E.c
         k = rng.random()
@@ -300,12 +308,54 @@ def mk_obj(a):
     return E.SI(bits=a[1], stride=a[2], lower_bound=a[3], upper_bound=a[4])
 
 
+# operators whose interval transfer function is modelled and proved sound (C21_add .. C21_sge, lifted to table entries by
+# C24_add_entry .. C24_cmp_entries): recorded operator -> command of the strided-interval driver
+MODEL_OPS = {"__add__": "add", "__sub__": "sub", "__neg__": "neg", "__invert__": "not", "ZeroExt": "zext",
+             "ULT": "ULT", "ULE": "ULE", "UGT": "UGT", "UGE": "UGE", "SLT": "SLT", "SLE": "SLE", "SGT": "SGT", "SGE": "SGE"}
+TRI = {"TT": ["bool", 1, 0], "TF": ["bool", 0, 1], "TM": ["bool", 1, 1]}
+
+
 class Checker:
-    def __init__(self, drv, stats):
-        self.drv, self.stats = drv, stats
+    def __init__(self, drv, stats, sdrv=None):
+        self.drv, self.stats, self.sdrv = drv, stats, sdrv
         self.fails = []          # composition failures / solver failures
         self.transfer = []       # failures located in an interval transfer function
         self.mismatch = None
+        self.entry_mismatch = None
+
+    def discharge(self, tab):
+        """the recorded entries of the modelled operators must be what the proved model computes: then their soundness is a
+        theorem (C24_*_entry) and not a hypothesis of this run.  Entries of other operators stay hypotheses (counted)."""
+        if self.sdrv is None:
+            return
+        for op, ints, avs, ar in tab:
+            m = MODEL_OPS.get(op)
+            n_args = 1 if m in ("neg", "not", "zext") else 2
+            if m is None or len(avs) != n_args or any(a[0] != "si" or a[5] for a in avs) or len({a[1] for a in avs}) != 1:
+                self.stats["entries_assumed"] += 1
+                continue
+            sis = [[a[1], a[2], a[3], a[4], 0] for a in avs]
+            if m in ("add", "sub"):
+                out = self.sdrv.ask([m, sis[0], sis[1]])
+            elif m in ("neg", "not"):
+                out = self.sdrv.ask([m, sis[0]])
+            elif m == "zext":
+                out = self.sdrv.ask(["zext", sis[0], sis[0][0] + ints[0]])
+            else:
+                out = self.sdrv.ask(["ucmp", m, sis[0], sis[1]])
+            if out[0] != "ok":
+                self.stats["entries_model_undefined"] += 1
+                continue
+            if isinstance(out[1], str):        # a comparison: TT / TF / TM
+                want = TRI[out[1]]
+            else:
+                r = out[1]
+                want = ["si", int(r[0]), 1, 0, 0, 1] if r[4] == "1" else ["si"] + [int(x) for x in r[:4]] + [0]
+            if want == ar:
+                self.stats["entries_proved_by_C21"] += 1
+            elif self.entry_mismatch is None:
+                self.entry_mismatch = {"kind": "a recorded result of a modelled interval operation differs from the proved model",
+                                       "op": op, "ints": ints, "args": [aval_str(a) for a in avs], "real": aval_str(ar), "model": aval_str(want)}
 
     def enum(self, case, terms):
         """-> per term: list of values over the assignments inside the intervals"""
@@ -343,6 +393,7 @@ class Checker:
             self.stats["raised_" + type(ex).__name__] += 1
             self.located_exception(case, e, ex)
             return
+        self.discharge(rec.tab)
         ar = aval(r)
         if ar is None:
             self.stats["unsupported_result"] += 1
@@ -541,16 +592,22 @@ def main(tier, seed, replay=None):
     forb = scan_forbidden()
     proof_ok = pr["ok"] and not forb
     okd, dlog = build_driver(*BV_DRIVER)
+    oks, slog = build_driver(*SI_DRIVER)
+    if not oks:
+        okd, dlog = False, slog
     stats = collections.Counter()
     ck = None
     if okd:
         drv = Driver("bvdriver")
-        ck = Checker(drv, stats)
+        sdrv = Driver("sidriver")
+        ck = Checker(drv, stats, sdrv)
         n_cases = 15000 if tier == "thorough" else 350
         try:
             for i in range(n_cases):
                 case = Case(rng, "c24s%dn%d" % (seed, i), general=(i % 3 == 2))
                 exprs = shaped(case, rng) if i % 2 == 0 else []
+                if i % 3 == 2:
+                    exprs += case.direct()
                 for _ in range(3):
                     exprs.append(case.bv(rng.randint(1, 3)) if rng.random() < 0.6 else case.boolean(rng.randint(1, 2)))
                 for j, e in enumerate(exprs):
@@ -562,6 +619,7 @@ def main(tier, seed, replay=None):
                     break
         finally:
             drv.close()
+            sdrv.close()
     # ---- report ----
     kf = {f["site"]: f for f in known_findings(PROP)}
     new = collections.defaultdict(list)
@@ -587,7 +645,7 @@ def main(tier, seed, replay=None):
                        "unrelated conditions under an operator or a comparison); every assignment inside the intervals is enumerated "
                        "with the extracted evaluator; SolverVSA eval/min/max/solution/satisfiable/is_true/is_false/add")
     rep.cov["histogram"] = dict(stats)
-    mismatch = ck.mismatch if ck else None
+    mismatch = (ck.mismatch or ck.entry_mismatch) if ck else None
     rep.cov["traces_validated_against_impl"] = stats.get("corr_aeval", 0) if not mismatch else 0
     rep.cov["transfer_function_failures"] = collections.Counter(f["site"] for f in ck.transfer) if ck else {}
     if not new and (not proof_ok or mismatch or not okd):
@@ -602,7 +660,10 @@ def main(tier, seed, replay=None):
         "Print Assumptions of Props/C24.v theorems: Closed under the global context",
         "extraction (ExtrOcamlBasic only) of AbsInt.vsa_convert, Ast.eval, Build.mk; ocaml/bvdriver.ml; the run-time wrapper "
         "around BackendVSA._call that records operator applications",
-        "the interval transfer functions, join and comparison results are hypotheses of the theorems (recorded, not modelled); "
+        "the recorded results of + - neg ~ ZeroExt and the eight order comparisons on plain intervals are compared with the proved "
+        "strided-interval model (histogram: entries_proved_by_C21), so their soundness is a theorem (C24_*_entry); the other "
+        "interval transfer functions, join and comparison results are hypotheses of the theorems (recorded, not modelled; "
+        "histogram: entries_assumed); "
         "annotations other than interval annotations on variables, value sets/regions and discrete sets are not modelled",
     ]
     rep.assumptions = ["soundness of each interval transfer function is C21's subject; a failure whose culprit node carries exactly the "
